@@ -654,6 +654,12 @@ func (e *Env) call(x *ECall) Val {
 			efail("upd sorts: key %s/%s value %s/%s", k.T.Sort, ks, v.T.Sort, vs)
 		}
 		return Val{T: tStore(a.T, k.T, v.T)}
+	case "zero":
+		gt, _ := e.resolveTypeText(x.Args[0].String())
+		if gt == nil {
+			efail("zero(): unknown type %s", x.Args[0])
+		}
+		return Val{T: c.zero(gt), GT: gt}
 	case "deref":
 		v := e.eval(x.Args[0])
 		if v.GT == nil {
